@@ -449,3 +449,106 @@ func c13CloseOracle(tr *mc.Trace) []h.Violation {
 func init() {
 	register("both", &h.Scenario{Name: "C13-close-during-and-after-a-back-off", Prop: "C13", P: 1, F: 0, D: 1, Run: c13CloseDuringBackoff(), Check: c13CloseOracle})
 }
+
+// c13TwoRouters: two router clients in one process (an application that bridges two multicast
+// groups). What one of them is told by its router - busy indications, back-offs that have run their
+// course - is that client's business: the other client's pacing and back-off are as if it were alone,
+// and every Send of either of them returns.
+func c13TwoRouters() func() {
+	return func() {
+		const pause = 20 * ms
+		sa, sb := fakesock.New("udp"), fakesock.New("udp")
+		sa.LogHandoff, sb.LogHandoff = true, true
+		a, _ := knx.NewRouterOnSocket(sa, knx.RouterConfig{RetainCount: 4, PostSendPauseDuration: pause})
+		b, _ := knx.NewRouterOnSocket(sb, knx.RouterConfig{RetainCount: 4, PostSendPauseDuration: pause})
+		for _, r := range []*knx.Router{a, b} {
+			r := r
+			mc.GoEnv("reader", func() {
+				for {
+					if _, ok := r.Inbound().Recv2(); !ok {
+						return
+					}
+				}
+			})
+		}
+		send := func(r *knx.Router, i int) {
+			mc.Log(Call{"Send", i})
+			t0 := mc.Now()
+			err := r.Send(Msg(i))
+			mc.Log(Ret{"Send", i, errStr(err), t0})
+		}
+		// A: one transmission, a busy indication, the back-off runs its course
+		send(a, 0)
+		deliverBusy(sa, 10, 1)
+		mc.Sleep(60 * ms)
+		// B: a busy indication of its own, then traffic on both
+		order := mc.Choose(2, mc.Free)
+		deliverBusy(sb, []int{10, 40}[mc.Choose(2, mc.Free)], 1)
+		mc.Sleep(1 * ms)
+		done := mc.NewChan[int](2, "c13two.done")
+		mc.GoEnv("sender-a", func() { send(a, 1); send(a, 2); done.Send(1) })
+		mc.GoEnv("sender-b", func() {
+			if order == 1 {
+				mc.Sleep(5 * ms)
+			}
+			send(b, 101)
+			send(b, 102)
+			done.Send(1)
+		})
+		mc.Sleep(400 * ms)
+		mc.Log(Note("horizon"))
+		a.Close()
+		b.Close()
+	}
+}
+
+func c13TwoRoutersOracle(tr *mc.Trace) []h.Violation {
+	vs := generic(tr, "C13", true)
+	bad := func(class, format string, a ...interface{}) {
+		vs = append(vs, h.Violation{Class: "C13:" + class, Msg: fmt.Sprintf(format, a...)})
+	}
+	calls := map[int]mc.Duration{}
+	rets := map[int]bool{}
+	last := map[bool]mc.Duration{} // per router (id >= 100: B): instant of its previous successful transmission
+	seenTx := map[bool]bool{}
+	horizon := false
+	for _, e := range tr.Log {
+		switch x := e.V.(type) {
+		case Note:
+			if x == "horizon" {
+				horizon = true
+			}
+		case Call:
+			if x.Call == "Send" && !horizon {
+				calls[x.ID] = e.T
+			}
+		case Ret:
+			if x.Call == "Send" {
+				rets[x.ID] = true
+			}
+		case fakesock.Sent:
+			ind, ok := x.Svc.(*knxnet.RoutingInd)
+			if !ok || x.Err != nil {
+				continue
+			}
+			isB := MsgID(ind.Payload) >= 100
+			if seenTx[isB] && e.T-last[isB] < 20*ms {
+				bad("two-routers:pause-violated", "router %s: message %d left the socket at %v, %v after that router's previous transmission (post-send pause 20 ms); the other router's flow control must not shorten it", map[bool]string{false: "A", true: "B"}[isB], MsgID(ind.Payload), e.T, e.T-last[isB])
+			}
+			seenTx[isB], last[isB] = true, e.T
+		}
+	}
+	if tr.Reason != "main-returned" {
+		return vs
+	}
+	for id, t := range calls {
+		if !rets[id] {
+			bad("two-routers:send-never-returned", "Send(%d), called at %v, had not returned at 460 ms: transmission did not resume after the back-off (two router clients in one process, each with a busy indication of its own)", id, t)
+		}
+	}
+	return vs
+}
+
+func init() {
+	register("both", &h.Scenario{Name: "C13-two-router-clients-in-one-process", Prop: "C13", P: 1, F: 0, D: 1, Run: c13TwoRouters(), Check: c13TwoRoutersOracle})
+}
